@@ -118,6 +118,17 @@ pub fn follow(f: &Flow<(), Prepare>, body: &[u8], status: u16, loc: &Loc, same_h
 }
 
 pub fn follow_ex(f: &Flow<(), Prepare>, body: &[u8], status: u16, loc: &Loc, same_host: bool, refuse_expect: bool) -> Result<Followed, String> {
+    follow_impl(f, body, status, loc, same_host, refuse_expect, None)
+}
+
+/// The same exchange, stopped in the Redirect state (the caller decides what to call there).
+pub fn drive_to_redirect(f: &Flow<(), Prepare>, body: &[u8], status: u16, loc: &Loc) -> Result<Flow<(), ureq_proto::client::flow::state::Redirect>, String> {
+    let mut sink = None;
+    follow_impl(f, body, status, loc, false, false, Some(&mut sink))?;
+    sink.ok_or_else(|| "the exchange did not end in the Redirect state".to_string())
+}
+
+fn follow_impl(f: &Flow<(), Prepare>, body: &[u8], status: u16, loc: &Loc, same_host: bool, refuse_expect: bool, redirect_sink: Option<&mut Option<Flow<(), ureq_proto::client::flow::state::Redirect>>>) -> Result<Followed, String> {
     let mut sr = f.clone().proceed();
     let mut buf = vec![0u8; 8192];
     crate::driver::write_whole_head(&mut sr).map_err(|e| format!("head: {}", e))?;
@@ -167,6 +178,10 @@ pub fn follow_ex(f: &Flow<(), Prepare>, body: &[u8], status: u16, loc: &Loc, sam
                 AnyFlow::RecvResponse(f).proceed()?.ok_or("cannot leave RecvResponse")?
             }
             AnyFlow::Redirect(mut r) => {
+                if let Some(sink) = redirect_sink {
+                    *sink = Some(r);
+                    return Ok(Followed::NotFollowed);
+                }
                 let pol = if same_host { RedirectAuthHeaders::SameHost } else { RedirectAuthHeaders::Never };
                 return Ok(match r.as_new_flow(pol) {
                     Ok(Some(n)) => Followed::New(n),
